@@ -977,8 +977,33 @@ func (area) Execute(raw json.RawMessage) (term string, info *hcommon.Info, err e
 	for len(x.parked) > 0 && !x.stop {
 		x.releaseParked(0)
 	}
-	if !x.stop && len(x.blocked) > 0 {
-		x.problems = append(x.problems, fmt.Sprintf("%d requests still wait for a transaction although nothing is in flight", len(x.blocked)))
+	// Nothing is in flight any more: a request that still waits for an
+	// open-owner transaction will wait forever.
+	for round := 0; round < 3 && !x.stop && len(x.blocked) > 0; round++ {
+		blocked := x.blocked
+		x.blocked = nil
+		for _, b := range blocked {
+			if x.stop {
+				break
+			}
+			switch x.e.wait(b.t) {
+			case wParked: // woke up late; parked in the clock
+				x.e.release(b.t)
+				x.observe(b, x.reqEvent(b.t, b.s))
+			case wBlocked:
+				if round == 2 {
+					x.info.Outs["hang"]++
+					x.recordDead(x.reqEvent(b.t, b.s), "RpHang", nil)
+					x.stop = true
+				} else {
+					x.blocked = append(x.blocked, b)
+				}
+			default:
+				x.info.Outs["hang"]++
+				x.recordDead(x.reqEvent(b.t, b.s), "RpHang", nil)
+				x.stop = true
+			}
+		}
 	}
 	for i := 0; i < 2 && !x.stop; i++ {
 		x.e.now.Add(3 * leaseNanos)
